@@ -249,9 +249,20 @@ def check(ck):
                     ck.ob(R3, pa.key(c, "mutates-fresh-copy:" + nm), fresh, "%s is a fresh copy before it is updated" % nm if fresh else
                           "`%s` updates `%s`, which can be the parent reference's own dict (`%s`): deriving a second partial silently changes the key "
                           "and the bound arguments of the first" % (A.short(c, 40), nm, A.short(v, 50)), pa.where(c))
-    txtp = A.norm(pa.node)
-    okpa = "new_partial_args += partial_args" in txtp and "new_partial_kwargs.update(partial_kwargs)" in txtp and \
-        "clone_with(partial_args=new_partial_args, partial_kwargs=new_partial_kwargs)" in txtp and "fn_reference.partial_args or ()" in txtp
+    cw = [c for c in pa.calls("clone_with")]
+    okpa = len(cw) == 1 and isinstance(A.kwarg(cw[0], "partial_args"), ast.Name) and isinstance(A.kwarg(cw[0], "partial_kwargs"), ast.Name)
+    if okpa:
+        PA, PK = A.kwarg(cw[0], "partial_args").id, A.kwarg(cw[0], "partial_kwargs").id
+        at = pa.nodes(cw[0])[0]
+        da = pa.df.reaching(at, PA)
+        # existing positionals first, the new ones appended
+        aug = [d for d in da if d.kind == "aug" and isinstance(d.stmt.op, ast.Add) and A.norm(d.value) == "partial_args"]
+        base = [d for d in da if d.kind == "assign"]
+        okpa = len(aug) == 1 and len(base) == 1 and pa.xnorm(base[0].value, base[0].node) == "self.fn_reference().partial_args or ()"
+        dk = [d for d in pa.df.reaching(at, PK) if d.kind == "assign"]
+        upd = [c for c in pa.calls("update") if A.norm(A.call_recv(c)) == PK and [A.norm(a) for a in c.args] == ["partial_kwargs"]]
+        okpa = okpa and len(dk) == 1 and "self.fn_reference().partial_kwargs" in pa.xnorm(dk[0].value, dk[0].node) and len(upd) == 1 \
+            and all(pa.cfg.must_pass(pa.nodes(upd[0]), i) for i in pa.nodes(cw[0]))
     ck.ob(R3, pa.key(None, "accumulates"), okpa, "partial() appends positional and updates keyword partials on a clone" if okpa else
           "partial() no longer accumulates (existing partials + new ones) into the clone", pa.where())
     check_typed_identity(ck, "C04.R4", ("reference", "base"))
